@@ -289,7 +289,12 @@ func (r *RuleResult) OK(key string, nontrivial bool, witness string) {
 	if witness != "" && len(r.Samples) < 6 {
 		r.Samples = append(r.Samples, key+" :: "+witness)
 	}
+	if dumpAll {
+		fmt.Printf("  ok  [%s] %s :: %s\n", r.Name, key, witness)
+	}
 }
+
+var dumpAll = os.Getenv("VERIF_DUMP") == "all"
 
 // Exc records an obligation discharged by a reviewed exception.
 func (r *RuleResult) Exc(key, reason string) {
